@@ -1243,6 +1243,12 @@ def dumped_eq(spec, a, b, env: Env) -> bool:  # noqa: C901, PLR0911
             return all(any(canon_eq(k, k2) and dumped_eq(s[2], v, v2, env) for k2, v2 in b.items()) for k, v in a.items())
         if tag == "optional" and a is not None:
             return dumped_eq(s[1], a, b, env)
+        if tag == "union":
+            return canon_eq(a, b) or any(dumped_eq(c, a, b, env) for c in s[1])
+        if tag in ("model", "ref") and isinstance(a, dict) and set(a) == set(b):
+            ms = s[1] if tag == "model" else env.specs[s[1]]
+            ftypes = {model_key(f["n"]): f["t"] for f in ms["fields"]}
+            return all(dumped_eq(ftypes[k], a[k], b[k], env) if k in ftypes else canon_eq(a[k], b[k]) for k in a)
     except Exception:  # noqa: BLE001  (the data does not have the shape of the type: fall back to exact structure)
         return canon_eq(a, b)
     return canon_eq(a, b)
